@@ -277,31 +277,94 @@ class Library:
         return iv, doms
 
     def complete(self, val, cons=None, objective=None):
-        """Best completion of the continuous variables for fixed integer values: a small linear programme solved by the
-        analysis' own dense two-phase simplex (Bland's rule). Returns the objective value and fills `val`, or None when
-        there is no feasible completion."""
+        """Best completion of the continuous variables for fixed integer values. Fast path: a variable whose value is forced
+        (its bounds from the already evaluable constraints meet in a point) or all of whose constraints are evaluable is fixed
+        at once; whatever remains coupled is a small linear programme solved by the analysis' own dense two-phase simplex
+        (Bland's rule). Returns the objective value and fills `val`, or None when there is no feasible completion."""
         cons = self.cons if cons is None else cons
         objective = self.objective_ if objective is None else objective
         cv = self.continuous_vars()
         sign = 1.0 if self.sense_ == "min" else -1.0
-        rows = []   # (coefficients over cv, sense, rhs)
-        for c in cons:
-            coefs = [c.expr.terms.get(v, 0.0) for v in cv]
-            rest = c.expr.const + sum(k * val[u] for u, k in c.expr.terms.items() if u.vtype != "C")
-            if not any(coefs):
-                x = rest
-                if not (x <= 1e-7 if c.sense == "<=" else x >= -1e-7 if c.sense == ">=" else abs(x) <= 1e-7):
+        key = (id(cons), len(cons), len(self.vars))
+        cache = self.__dict__.setdefault("_cc", {})
+        if cache.get("key") != key:
+            by_var = collections.defaultdict(list)
+            pure_int = []
+            for c in cons:
+                cvs = [v for v, k in c.expr.terms.items() if k and v.vtype == "C"]
+                if not cvs:
+                    pure_int.append(c)
+                for v in cvs:
+                    by_var[v].append((c, cvs))
+            cache.clear()
+            cache.update(key=key, by_var=by_var, pure_int=pure_int)
+        by_var, pure_int = cache["by_var"], cache["pure_int"]
+        for c in pure_int:
+            if not c.holds(val):
+                return None
+        open_ = list(cv)
+        closed = set()
+        progress = True
+        while open_ and progress:
+            progress = False
+            for v in list(open_):
+                lo, hi = v._lb, v._ub
+                all_ready = True
+                for c, cvs in by_var.get(v, ()):
+                    if any(u is not v and u not in closed for u in cvs):
+                        all_ready = False
+                        continue
+                    a = c.expr.terms[v]
+                    rest = c.expr.const + sum(k * val[u] for u, k in c.expr.terms.items() if u is not v and k)
+                    bound = -rest / a
+                    for s_ in ((c.sense,) if c.sense != "==" else ("<=", ">=")):
+                        if (s_ == "<=") == (a > 0):
+                            hi = min(hi, bound)
+                        else:
+                            lo = max(lo, bound)
+                if lo > hi + 1e-7:
                     return None
-                continue
-            rows.append((coefs, c.sense, -rest))
-        cost = [sign * (objective.terms.get(v, 0.0) if objective is not None else 0.0) for v in cv]
-        sol = _simplex(cost, rows, [(v._lb, v._ub) for v in cv])
-        if sol is None:
-            return None
-        if sol == "unbounded":
-            raise Unfoldable("the continuous part of the model is unbounded")
-        for v, x in zip(cv, sol):
-            val[v] = x
+                if abs(hi - lo) <= 1e-9:
+                    x = (lo + hi) / 2.0
+                elif all_ready:
+                    coef = sign * (objective.terms.get(v, 0.0) if objective is not None else 0.0)
+                    if coef > 0:
+                        x = lo
+                    elif coef < 0:
+                        x = hi
+                    else:
+                        x = 0.0 if lo <= 0.0 <= hi else (lo if lo > -INF else hi)
+                    if x in (INF, -INF):
+                        raise Unfoldable(f"model is unbounded in {v._name}")
+                else:
+                    continue
+                val[v] = x
+                closed.add(v)
+                open_.remove(v)
+                progress = True
+        if open_:
+            rows = []
+            seen = set()
+            for v in open_:
+                for c, cvs in by_var.get(v, ()):
+                    if id(c) in seen:
+                        continue
+                    seen.add(id(c))
+                    coefs = [c.expr.terms.get(u, 0.0) for u in open_]
+                    rest = c.expr.const + sum(k * val[u] for u, k in c.expr.terms.items() if u not in open_ and k)
+                    rows.append((coefs, c.sense, -rest))
+            cost = [sign * (objective.terms.get(v, 0.0) if objective is not None else 0.0) for v in open_]
+            sol = _simplex(cost, rows, [(v._lb, v._ub) for v in open_])
+            if sol is None:
+                return None
+            if sol == "unbounded":
+                raise Unfoldable("the continuous part of the model is unbounded")
+            for v, x in zip(open_, sol):
+                val[v] = x
+        for v in cv:
+            for c, cvs in by_var.get(v, ()):
+                if not c.holds(val):
+                    return None
         return objective.value(val) if objective is not None else 0.0
 
     def enumerate(self):
